@@ -1,10 +1,14 @@
 """C11 — IF/FOR/WHILE/BREAK/CONTINUE and user functions: streams."""
+import re
 from ..core import Stream, hx, unhx
 
 RULE = ("script: random script programs (nested IF/ELSE, WHILE, FOR with BREAK/CONTINUE at every depth, loops that hit the 10000-iteration limit, "
         "user functions with positional/defaulted parameters called as statements and inside expressions, RETURN from inside loops, Result=, "
         "bounded recursion, shadowing of caller variables, bodies that emit notes and PRINTs) run by the real lexer+runner; the log text and the "
         "sequence of emitted note numbers must equal those of the reference interpreter Spec.Script (Lean). "
+        "scriptexec: the same programs through the harness op scriptrun (real token list, real function table, log, notes, height of the value stack); the "
+        "literal model Model.ScriptExec run on those real tokens must give the same log, notes and stack height, the real token lists must lie inside the token "
+        "classes Stm/Ex/Arg of the stack theorem (C11_call_leaves_no_value), and no value may be left on the stack. "
         "non-trivial = distinct (log, notes) outputs of programs with >= 1 loop or call")
 ASSUMPTIONS = ["operands of binary operators inside script expressions are parenthesised or atomic where needed by the C10 grammar (C10 covers precedence)",
                "all statements are on one source line (line accounting is C19's subject)", "functions used inside expressions RETURN a value"]
@@ -200,4 +204,46 @@ def streams(tier, rng, P, only=None, cases=None):
         return None
     def nt(c, impl, m): return (m[0][:200]) if c["nt"] >= 1 and impl[0] == "ok" else None
     s1 = Stream("script", cases if (cases and only == "script") else mk(), model, judge, nt, "script programs vs the reference interpreter", timeout_case=30.0)
-    return [s for s in (s1,) if only in (None, s.name)]
+    # ---- scriptexec: the literal model of the script arms of runner::exec (Model.ScriptExec) on the REAL token lists and function tables
+    def mk_sx():
+        cs = []
+        n = 8000 if big else 1000
+        for i in range(n):
+            src, sx, nt_ = gen_case(rng)
+            cs.append(dict(req="scriptrun " + hx(src), src=src, show=src, nt=nt_, key="x%d" % i))
+        for j, (src, sx) in enumerate(FIXED):
+            cs.append(dict(req="scriptrun " + hx(src), src=src, show=src, nt=1, key="xfixed%d" % j))
+        for j, src in enumerate(["FUNCTION F(X,Y=2){ RETURN(X+Y) } PRINT(F(1)); F(2,3); F(); PRINT(F())", "INT A=1; FUNCTION G(){ A=5; PRINT(A) } G(); PRINT(A)",
+                                 "FUNCTION H(N){ IF(N<=0){ RETURN(0) } RETURN(N+H(N-1)) } PRINT(H(4))", "INT K=0; WHILE(K<3){ K++; IF(K==2){ CONTINUE } PRINT(K) } PRINT(K)",
+                                 "FUNCTION Q(){ FOR(INT I=0;I<5;I++){ IF(I==2){ RETURN(I*10) } } RETURN(99) } PRINT(Q()+1)", "PRINT(1+2*3); PRINT((1+2)*3); PRINT(7/2); PRINT(7%3); PRINT(1==1); PRINT(2>3)"]):
+            cs.append(dict(req="scriptrun " + hx(src), src=src, show=src, nt=1, key="xf%d" % j))
+        return cs
+    def sx_model(c, st, f):
+        if st != "ok": return []
+        return ["scriptexec %s %s" % (f["toks"], f["funcs"])]
+    def norm_log(text):
+        out = []
+        for e in text.split("\n"):
+            m_ = re.match(r"^\[ERROR\]\((-?\d+)\) .*(WHILE|FOR)\(>\d+\)$", e)
+            out.append("[LIMIT-%s](%s)" % (m_.group(2)[0], m_.group(1)) if m_ else e)
+        return "\n".join(out)
+    def sx_judge(c, impl, m):
+        st, f = impl
+        if st != "ok": return ("violation", "script did not run normally: " + st)
+        if not m or "log=" not in m[0]:
+            return ("mismatch", "the literal model does not cover a generated program: " + (m[0] if m else "")[:80])
+        d = dict(x.split("=", 1) for x in m[0].split(" ")[1:] if "=" in x)
+        want_log = unhx(d["log"]).decode("utf-8", "replace") if d["log"] != "~" else ""
+        want_log = "\n".join(want_log.split("\n")[:100])
+        got_log = norm_log(unhx(f["log"]).decode("utf-8", "replace")) if f["log"] != "~" else ""
+        if len(want_log) > 4000 or len(got_log) > 4000: got_log = got_log[:4000]; want_log = want_log[:4000]
+        if got_log != want_log: return ("mismatch", "literal script model log differs: real %r model %r" % (got_log[-160:], want_log[-160:]))
+        if f["notes"] != d["notes"]: return ("mismatch", "literal script model notes differ: real %s model %s" % (f["notes"][-80:], d["notes"][-80:]))
+        if f["stack"] != d["stack"]: return ("mismatch", "value stack height differs: real %s model %s" % (f["stack"], d["stack"]))
+        if d.get("wf") != "1": return ("mismatch", "the real token list is outside the classes Stm/Ex/Arg of the stack theorem")
+        if f["stack"] != "0": return ("violation", "a value is left on the stack after the program (%s)" % f["stack"])
+        return None
+    s2 = Stream("scriptexec", cases if (cases and only == "scriptexec") else mk_sx(), sx_model, sx_judge,
+                lambda c, i, m: (m[0][:200]) if c["nt"] >= 1 and i[0] == "ok" and m else None,
+                "literal script-runner model on real token lists: log, notes, stack height; token classes of the stack theorem", timeout_case=30.0)
+    return [s for s in (s1, s2) if only in (None, s.name)]
